@@ -116,7 +116,34 @@ func TestC03_Mgrx(t *testing.T) {
 			sp1.Class("transport_error_fails_channel")
 		case "initiator-signals":
 			role := rapid.SampledFrom([]string{"createPush", "createPull"}).Draw(t, "role")
-			c := openRole(t, r, &log, role, 0, false)
+			var c *mchan
+			if rapid.IntRange(0, 3).Draw(t, "acceptanceLearntFromRestartResponse") == 0 {
+				// the responder accepted, but its first response never reached this initiator (it was
+				// cut off or replaced before the response arrived); it restarts the channel and the
+				// responder's accepted restart response is the first it hears of the acceptance
+				v := datatransfer.TypedVoucher{Type: "T/a", Voucher: basicnode.NewString("v")}
+				var err error
+				c, err = r.open(role, gen.Peer(1), 0, v, simpleCid(7), strNode("sel"), false)
+				if err != nil {
+					mfail(t, log, "HARNESS/setup", "opening %s: %v", role, err)
+				}
+				if role == "createPull" {
+					_ = r.ev().OnChannelOpened(c.chid)
+					r.ev().OnTransferInitiated(c.chid)
+				}
+				if err := r.mgr.RestartDataTransferChannel(bg(), c.chid); err != nil {
+					mfail(t, log, "HARNESS/setup", "restart: %v", err)
+				}
+				rr, _ := message.RestartResponse(c.chid.ID, true, false, nil)
+				deliver(r, c.other, rr, rapid.Bool().Draw(t, "restartResponseViaTransport"))
+				r.ev().OnTransferInitiated(c.chid)
+				st := r.sync(c.chid)
+				log = append(log, fmt.Sprintf("open %s; first response lost; restart accepted by the responder -> %s", c.String(), datatransfer.Statuses[st.Status()]))
+				c.pubSeen = r.pub.count(c.chid)
+				sp.Class("acceptance_learnt_from_restart_response")
+			} else {
+				c = openRole(t, r, &log, role, 0, false)
+			}
 			// a generated order of: local finish, paused Complete (0..2 times), final Complete; over both paths
 			nPaused := rapid.IntRange(0, 2).Draw(t, "pausedCompletes")
 			var seq []string
